@@ -94,6 +94,11 @@ class V3MPM(MessageProcessingModel[V3EncodingResult, TV3SecModel]):
             self.disco = await self.security_model.send_discovery_message(
                 self.transport_handler
             )
+            self.security_model.set_engine_timing(
+                self.disco.authoritative_engine_id,
+                self.disco.authoritative_engine_boots,
+                self.disco.authoritative_engine_time,
+            )
         security_engine_id = self.disco.authoritative_engine_id
 
         if engine_id == b"":
@@ -113,13 +118,6 @@ class V3MPM(MessageProcessingModel[V3EncodingResult, TV3SecModel]):
             flags,
             security_model_id,
         )
-
-        if self.disco is not None:
-            self.security_model.set_engine_timing(
-                self.disco.authoritative_engine_id,
-                self.disco.authoritative_engine_boots,
-                self.disco.authoritative_engine_time,
-            )
 
         snmp_version = 3
         msg = PlainMessage(Integer(snmp_version), header, b"", scoped_pdu)
